@@ -20,6 +20,8 @@ thread_local! {
     static SCHEDULER: RefCell<Option<Arc<dyn Scheduler>>> = const { RefCell::new(None) };
     static CLOCK: Cell<Option<(u64, u64)>> = const { Cell::new(None) };
     static RANDOM: Cell<Option<u64>> = const { Cell::new(None) };
+    static ENTROPY: RefCell<std::collections::VecDeque<Vec<u8>>> =
+        const { RefCell::new(std::collections::VecDeque::new()) };
 }
 
 /// Installs (or clears) the scheduler for the current thread.
@@ -84,4 +86,28 @@ pub fn next_random_u64() -> Option<u64> {
 /// Next value of the deterministic stream mapped into the open interval (0, 1).
 pub fn next_random_unit_f64() -> Option<f64> {
     next_random_u64().map(|v| ((v >> 11) as f64 + 0.5) / (1u64 << 53) as f64)
+}
+
+/// Queues scripted answers for the next entropy draws of the current thread
+/// (one entry per draw); `clear_entropy` drops what is left.
+pub fn push_entropy(bytes: Vec<u8>) {
+    ENTROPY.with(|e| e.borrow_mut().push_back(bytes));
+}
+
+/// Drops every scripted entropy answer still queued on the current thread.
+pub fn clear_entropy() {
+    ENTROPY.with(|e| e.borrow_mut().clear());
+}
+
+/// Next scripted entropy answer if one is queued and has exactly `len` bytes;
+/// `None` (use the real generator) otherwise.
+pub fn take_entropy(len: usize) -> Option<Vec<u8>> {
+    ENTROPY.with(|e| {
+        let mut queue = e.borrow_mut();
+        if queue.front().is_some_and(|b| b.len() == len) {
+            queue.pop_front()
+        } else {
+            None
+        }
+    })
 }
